@@ -279,6 +279,11 @@ static Geometry& reference_head() {
     if (!g) { const auto& t = catalog().G.at(0); g = new Geometry(t[1],t[2]); }
     return *g;
 }
+static Geometry& second_head() {      // a head the usual source meshes intersect (catalog X line 3: four nested spheres 0.4 .. 1.0)
+    static Geometry* g = nullptr;
+    if (!g) { const auto& t = catalog().X.at(3); g = new Geometry(t[1],t[2]); }
+    return *g;
+}
 static Wire sens_obs(ll st,const Sensors& s) {
     if (st) return Wire{ st };
     Wire o{ 0,(ll)s.m_nb,(ll)s.m_positions.nlin(),(ll)s.m_orientations.nlin(),(ll)s.m_weights.nlin(),(ll)s.m_radii.nlin(),(ll)s.m_triangles.size(),
@@ -302,9 +307,9 @@ static Wire run_sens(Reader& r,bool describe) {
     return out;
 }
 
-static ll surfsource_fp(Mesh& m) {
+static ll surfsource_fp(Mesh& m,bool second=false) {
     ll fp = 0;
-    const ll st = guarded_om([&]() { Matrix S = SurfSourceMat(reference_head(),m,Integrator(3,0,0.005)); fp = mhash(S.data(),S.size()); });
+    const ll st = guarded_om([&]() { Matrix S = SurfSourceMat(second ? second_head() : reference_head(),m,Integrator(3,0,0.005)); fp = mhash(S.data(),S.size()); });
     return st ? 0 : fp;
 }
 static Wire mesh_obs(ll st,const Mesh& m) {
@@ -348,6 +353,11 @@ static Wire mesh_describe(size_t i) {
     for (const auto& t : m.triangles()) for (unsigned c=0;c<3;++c) o.push_back(pos.at(&t.vertex(c)));
     o.push_back((st==0 && !m.vertices().empty()) ? surfsource_fp(m) : 0);
     o.push_back((ll)m.current_barrier());
+    {   // the same against the second head, on a fresh Mesh object
+        Mesh m2; const ll st2 = guarded_om([&]() { m2.load(catalog().M.at(i)[1],false); });
+        o.push_back((st2==0 && !m2.vertices().empty()) ? surfsource_fp(m2,true) : 0);
+        o.push_back((ll)m2.current_barrier());
+    }
     return o;
 }
 static Wire run_mesh(Reader& r) {
@@ -357,14 +367,14 @@ static Wire run_mesh(Reader& r) {
         const size_t o = r.n(), i = r.n();
         Wire ob;
         if (o==0) { const ll st = guarded_om([&]() { m.load(catalog().M.at(i)[1],false); }); loaded = (st==0); ob = mesh_obs(st,m); }
-        else ob = mesh_obs(loaded ? surfsource_fp(m) : -1,m);
+        else ob = mesh_obs(loaded ? surfsource_fp(m,o==2) : -1,m);
         out.push_back((ll)ob.size()); out.insert(out.end(),ob.begin(),ob.end());
     }
     return out;
 }
 
 // ---- machine 5: one persistent Vector / Matrix / SymMatrix / SparseMatrix object
-template <typename T> static Wire dense_obs(const T& x) { return Wire{ 0,(ll)x.nlin(),(ll)x.ncol(),1,0,x.size() ? mhash(x.data(),x.size()) : 1 }; }
+template <typename T> static Wire dense_obs(const T& x) { return Wire{ 0,(ll)x.nlin(),(ll)x.ncol(),1,0,(x.size() && x.data()) ? mhash(x.data(),x.size()) : 1 }; }
 static Wire sparse_obs(const SparseMatrix& p) {
     Wire o{ 0,(ll)p.nlin(),(ll)p.ncol(),(ll)p.size() };
     for (auto it=p.begin();it!=p.end();++it) { o.push_back((ll)it->first.first*1048576+(ll)it->first.second); const double v = it->second; o.push_back(mhash(&v,1)); }
@@ -378,7 +388,8 @@ static Wire run_linop(Reader& r,bool describe) {
     for (size_t q=0;q<nops;++q) {
         const std::string f = catalog().L.at(r.n())[1];
         const ll st = guarded_om([&]() { switch (k) { case 0: V.load(f.c_str()); break; case 1: M.load(f.c_str()); break; case 2: S.load(f.c_str()); break; default: P.load(f.c_str()); } });
-        Wire ob = st ? Wire{ st } : (k==0 ? dense_obs(V) : k==1 ? dense_obs(M) : k==2 ? dense_obs(S) : sparse_obs(P));
+        Wire ob = (k==0 ? dense_obs(V) : k==1 ? dense_obs(M) : k==2 ? dense_obs(S) : sparse_obs(P));
+        if (st) { ob[0] = st; ob.insert(ob.begin(),-77); }     // failed load: marker, status, then the object as it is left
         out.push_back((ll)ob.size()); out.insert(out.end(),ob.begin(),ob.end());
     }
     return out;
